@@ -39,7 +39,7 @@ def main():
         try:
             for cid in checks:
                 t0 = time.time()
-                env = dict(os.environ, VERIF_EVIDENCE_DIR=os.path.join(ROOT, ".build", "sweep_evidence"))
+                env = dict(os.environ, VERIF_EVIDENCE_DIR=os.path.join(ROOT, ".build", "sweep_evidence"), VERIF_MAX_REPLAYS="1")
                 p = subprocess.run(["./check", cid, "--tier", "quick"], cwd=ROOT, env=env, stdout=subprocess.PIPE, stderr=subprocess.STDOUT, text=True)
                 lines = p.stdout.splitlines()
                 runs[cid] = {"cmd": "git -C /repo apply seeded/%s/patch.diff && ./check %s --tier quick && git -C /repo checkout -- ." % (sd, cid),
